@@ -726,6 +726,13 @@ class Model:
         e = Exp("NICK", ("C15", "C02", "C04"))
         u = self.user_of(cid)
         new = cmd["nick"]
+        if new == "" or " " in new:
+            # not a nickname at all (empty / contains a blank): must be refused, nothing changes
+            e.props |= {"C13"}
+            e.unspec_replies = True
+            e.shape = "nick:invalid"
+            e.cover.append(("nick", "invalid"))
+            return e
         if new == u.nick:
             e.shape = "nick:same"
             e.cover.append(("nick", "same"))
